@@ -224,6 +224,14 @@ def body_form(c, ctx):
     if r.shape != F.shape or not np.allclose(r, -F, rtol=0, atol=1e-9 * sF):
         ctx.fail('residual', f'{fam}: returned vector differs from minus the residual assembled with NumPy helpers by '
                  f'{np.abs(r + F).max() if r.shape == F.shape else "shape"} (scale {sF:.2e})', **sig)
+    # the elemental route: local Jacobians in the layout of the library's other elemental data
+    if 'hessian' not in params and c['seed'] % 3 == 0:
+        Je = NonlinearForm(jx, **params).elemental(basis, x=None if x0 is None else x0.copy())[0]
+        Ke = BilinearForm(lin, **fkw).elemental(basis, prev=prev)
+        la, lb = np.asarray(Je.tolocal()), np.asarray(Ke.tolocal())
+        if la.shape != lb.shape or not np.allclose(la, lb, rtol=0, atol=1e-9 * (1.0 + np.abs(lb).max())):
+            ctx.fail('jacobian_local_matrices', f'{fam}: elemental(...)[0].tolocal() differs from the local matrices of the hand-linearised '
+                     f'form by {np.abs(la - lb).max() if la.shape == lb.shape else (la.shape, lb.shape)}', **sig)
     Jd, Kd = J.toarray(), K.toarray()
     sK = 1.0 + np.abs(Kd).max()
     if Jd.shape != Kd.shape or not np.allclose(Jd, Kd, rtol=0, atol=1e-9 * sK):
